@@ -1016,3 +1016,129 @@ func modeC04g(e *Env) {
 }
 
 func init() { modes["c04g"] = modeC04g }
+
+// ---- schedules generated by TLC (spec/Gen_Conn.tla) --------------------------------------------------------------
+
+// scriptScenario turns one behaviour of MC_Conn into a scenario: the log is exactly the packets the behaviour reads
+// ("ev": an ignorable event, "commit": a DDL statement (a transaction of its own), "bad": an unsupported event), the
+// master's plan is the behaviour's terminal packet / break / connection failure, and the attempt is run with the
+// library's hook points as scheduler gates so that it follows the behaviour step by step.
+func scriptScenario(r *rand.Rand, cfg WireCfg, steps [][]string) (*Log, AttemptPlan) {
+	cfg.Gtid = false
+	l := &Log{Cfg: cfg}
+	f := &LogFile{Name: "mysql-bin.000001"}
+	l.Files = []*LogFile{f}
+	a := defaultAttempt()
+	a.End = "idle"
+	a.HookTrace = true
+	a.Script = steps
+	ts := uint32(1600000000)
+	n := 0 // packets after the two artificial ones
+	terminal := false
+	returned := false
+	for _, st := range steps {
+		switch st[0] {
+		case "ConnectFail":
+			a.Dead = true
+		case "SendSetFail":
+			a.ConnFault = "set_err"
+		case "SendDumpFail":
+			a.ConnFault = "set_then_reset"
+		case "Return":
+			returned = true
+		case "Cancel":
+			if returned {
+				a.CancelAfterReturn = true // (the script performs it; the flag tells the monitors it came after the return)
+			}
+		case "ReaderRead":
+			if terminal {
+				continue
+			}
+			switch st[1] {
+			case "ev":
+				ts++
+				f.Units = append(f.Units, &Unit{U: "ign", Evs: []*Ev{{K: "unknown", TS: ts, Code: 100}}})
+				n++
+			case "commit":
+				ts++
+				f.Units = append(f.Units, &Unit{U: "ddl", Evs: []*Ev{{K: "query", TS: ts, Cat: "ddl", DB: "d", SQL: "create table t" + itoa(n) + " (a int)"}}})
+				n++
+			case "bad":
+				if a.Inject == nil {
+					a.Inject = &Inject{Kind: "rand", At: 2 + n}
+				} else {
+					ts++
+					f.Units = append(f.Units, &Unit{U: "ign", Evs: []*Ev{{K: "unknown", TS: ts, Code: 100}}})
+				}
+				n++
+			case "EOF":
+				a.Fault = &Fault{Kind: "eof", At: 2 + n}
+				terminal = true
+			case "ERR":
+				a.Fault = &Fault{Kind: "err", At: 2 + n, Code: uint16(1000 + r.Intn(3000)), Msg: "verif master error " + itoa(r.Intn(1000))}
+				terminal = true
+			case "transport":
+				a.Fault = &Fault{Kind: "close", At: 2 + n}
+				terminal = true
+			}
+		}
+	}
+	if a.Fault == nil {
+		for _, st := range steps {
+			if st[0] == "Break" {
+				a.Fault = &Fault{Kind: "close", At: 2 + n}
+			}
+		}
+	}
+	l.Layout()
+	return l, a
+}
+
+// modeC05g replays the schedules TLC generated from MC_Conn, each followed by a clean attempt on the same Streamer.
+func modeC05g(e *Env) {
+	var cfgs []WireCfg
+	for _, c := range allCfgs() {
+		if !c.Gtid {
+			cfgs = append(cfgs, c)
+		}
+	}
+	id := 0
+	for i, s := range e.ReadScenarios() {
+		raw, _ := s["steps"].([]interface{})
+		var steps [][]string
+		for _, x := range raw {
+			var st []string
+			for _, y := range x.([]interface{}) {
+				st = append(st, y.(string))
+			}
+			steps = append(steps, st)
+		}
+		if len(steps) == 0 {
+			continue
+		}
+		l, a := scriptScenario(e.R, cfgs[i%len(cfgs)], steps)
+		clean := defaultAttempt()
+		clean.HookTrace = true
+		// Error() cannot be held back (it has no hook point): when the script cancels between the call and its return the
+		// model's Error() result is not comparable with the real one
+		eresOK, called := true, false
+		for _, st := range steps {
+			if st[0] == "ErrorCall" {
+				called = true
+			}
+			if st[0] == "Cancel" && called {
+				eresOK = false
+			}
+		}
+		eres := s["eres"]
+		if !eresOK {
+			eres = "none"
+		}
+		id++
+		RunStreamScenario(e.Rec, &StreamScenario{ID: id, Fam: "c05g", Log: l, Start: l.Boundaries()[0], ServerID: 13,
+			Attempts: []AttemptPlan{a, clean}, Note: "tlc-schedule",
+			Model: M{"result": s["result"], "eres": eres, "complete": s["complete"], "rexit": s["rexit"]}})
+	}
+}
+
+func init() { modes["c05g"] = modeC05g; modes["c06g"] = modeC05g }
